@@ -93,7 +93,7 @@ PropVerdict ==
                          ELSE IF C11_Mirror(LTree, LStatus, LData) /\ T.lifecycle = "ok" THEN "holds" ELSE "violated"
       [] Prop = "C07" -> IF ~C07_InDomain(LDocs, LSafes) THEN "outside"
                          ELSE IF /\ C07_TaintSound(LTree, LDocs, LSafes)
-                                 /\ (LStatus \in {"done", "EvalError", "UnsafeError"} => C07_EvalHolds(LTree, LStatus, LCalls, LDocs, LSafes))
+                                 /\ (LStatus \in {"done", "EvalError", "UnsafeError"} => C07_EvalHolds(LTree, LStatus, LCalls, LData, LDocs, LSafes))
                               THEN "holds" ELSE "violated"
       [] OTHER -> "none"
 
@@ -103,7 +103,7 @@ ModelVerdict ==
                             /\ C10_OrderFree(work, status, MData) /\ C10_SameObject(work, status, MIds) THEN "holds" ELSE "violated"
       [] Prop = "C11" -> IF C11_Mirror(work, status, MData) THEN "holds" ELSE "violated"
       [] Prop = "C07" -> IF (C07_InDomain(LDocs, LSafes) => C07_TaintSound(work, LDocs, LSafes))
-                            /\ C07_EvalHolds(work, status, MCallsData, LDocs, LSafes) THEN "holds" ELSE "violated"
+                            /\ C07_EvalHolds(work, status, MCallsData, MData, LDocs, LSafes) THEN "holds" ELSE "violated"
       [] OTHER -> "none"
 
 Report == (ETerminal \/ status = "RequiredError") => PrintT(<<"TRACE", T.tid, Compare, PropVerdict, ModelVerdict, "">>)
